@@ -576,13 +576,32 @@ Fixpoint set_heartbeat_all (k:nat) (r:rnode) (i:Z) (interval offset:Z) : rnode :
     else
       let interval2 := Z.max 1000 (Z.min interval1 c_MaxHeartbeatInterval) in
       let changed := negb (ss_period (x_hb x) =? interval2) || negb (ss_offset (x_hb x) =? offset1) in
-      let r1 := if changed then
+      (* a scheduler disabled with interval 0 keeps its period and offset: it is started again also when the values are the same *)
+      let r1 := if changed || (ss_next (x_hb x) =? ss_disabled) then
                   let '(rc, t) := millis64 r in
-                  with_devinfo_changed (with_devx rc i {| x_pend_claim := x_pend_claim x; x_pend_prod := x_pend_prod x; x_pend_conf := x_pend_conf x;
-                                                          x_hb := ss_update_next t (r_sync rc) {| ss_next := ss_next (x_hb x); ss_offset := offset1; ss_period := interval2 |};
-                                                          x_hb_seq := x_hb_seq x; x_rx := x_rx x |})
+                  let rc' := with_devx rc i {| x_pend_claim := x_pend_claim x; x_pend_prod := x_pend_prod x; x_pend_conf := x_pend_conf x;
+                                                x_hb := ss_update_next t (r_sync rc) {| ss_next := ss_next (x_hb x); ss_offset := offset1; ss_period := interval2 |};
+                                                x_hb_seq := x_hb_seq x; x_rx := x_rx x |} in
+                  if changed then with_devinfo_changed rc' else rc'
                 else r in
       set_heartbeat_all k' r1 (i+1) interval offset
+  end.
+
+(* for (i...) if (HeartbeatScheduler.IsEnabled()) HeartbeatScheduler.UpdateNextTime();   (Open(), after SetSyncOffset) *)
+Fixpoint resync_heartbeats (k:nat) (r:rnode) (i:Z) : rnode :=
+  match k with
+  | O => r
+  | S k' =>
+    let x := get_devx r i in
+    let r1 := if ss_next (x_hb x) =? ss_disabled then r
+              else if ss_period (x_hb x) =? 0 then
+                with_devx r i {| x_pend_claim := x_pend_claim x; x_pend_prod := x_pend_prod x; x_pend_conf := x_pend_conf x;
+                                 x_hb := ss_update_next 0 (r_sync r) (x_hb x); x_hb_seq := x_hb_seq x; x_rx := x_rx x |}
+              else
+                let '(rc, t) := millis64 r in
+                with_devx rc i {| x_pend_claim := x_pend_claim x; x_pend_prod := x_pend_prod x; x_pend_conf := x_pend_conf x;
+                                  x_hb := ss_update_next t (r_sync rc) (x_hb x); x_hb_seq := x_hb_seq x; x_rx := x_rx x |} in
+    resync_heartbeats k' r1 (i+1)
   end.
 
 (* ---------- Open() and ParseMessages ---------- *)
@@ -609,7 +628,9 @@ Definition open_step (r:rnode) : rnode * list event * bool :=
       let '(r2c, tsync) := millis64 r2 in
       let r3 := with_sync r2c tsync in
       let r4 := set_heartbeat_all (length (n_devs (rn r3))) r3 0 c_DefaultHeartbeatInterval 10000 in
-      (r4, ev ++ [EvNote 1], true)
+      (* a schedule computed before Open() refers to the previous SyncOffset: every enabled heartbeat scheduler is recomputed *)
+      let r5 := resync_heartbeats (length (n_devs (rn r4))) r4 0 in
+      (r5, ev ++ [EvNote 1], true)
     else (with_rxq r0 [], [], true).                                              (* "read rubbish out from CAN controller" *)
 
 Definition slot_msg (s:slot) : msg :=
